@@ -1,9 +1,15 @@
 #!/bin/bash
-# usage: bin_seed_matrix.sh [seed ...]   -- development aid: for every kept seed, apply it to /repo, run the property's quick
-# check, record whether a VIOLATION line was printed, and restore /repo.  Also runs every check once on the unchanged tree.
-# Never commits anything to /repo; refuses to start when /repo has local modifications.
+# usage: bin_seed_matrix.sh [seed ...]   -- development aid: for every kept seed, apply it to a SCRATCH WORKTREE of /repo HEAD
+# (never to /repo itself: a seed applied to /repo's working tree was once captured by an end-of-round snapshot commit), run the
+# property's quick check there, record whether a VIOLATION line was printed.  With no argument it also runs every check once on the
+# unchanged worktree.  The worktree, its work directory and its build output are removed at the end (and on interruption).
 cd /verif
-if [ -n "$(git -C /repo status --porcelain)" ]; then echo "/repo is dirty; refusing"; exit 9; fi
+LANE=${VERIF_LANE:-/tmp/matrix_lane}
+cleanup() { git -C /repo worktree remove --force "$LANE" 2>/dev/null; rm -rf "$LANE" "${LANE}_work"; git -C /repo worktree prune; }
+trap cleanup EXIT INT TERM
+cleanup
+git -C /repo worktree add -q --detach "$LANE" HEAD || exit 9
+export VERIF_REPO="$LANE" VERIF_WORK="${LANE}_work"
 SEEDS="$@"; [ -z "$SEEDS" ] && SEEDS=$(cd seeded && ls -d */ | tr -d /)
 if [ $# -eq 0 ]; then
   for id in $(python3 -c "import json;print(' '.join(c['property_id'] for c in json.load(open('MANIFEST.json'))['checks']))" 2>/dev/null || ls evidence | sed 's/.json//'); do
@@ -13,8 +19,9 @@ if [ $# -eq 0 ]; then
 fi
 for s in $SEEDS; do
   id=${s%-*}
-  git -C /repo apply /verif/seeded/$s/patch.diff || { echo "SEED $s: patch does not apply"; continue; }
+  git -C "$LANE" checkout -q -- .
+  git -C "$LANE" apply /verif/seeded/$s/patch.diff || { echo "SEED $s: patch does not apply"; continue; }
   out=$(./check $id 2>&1); rc=$?
-  git -C /repo checkout -- .
+  git -C "$LANE" checkout -q -- .
   echo "SEED $s rc=$rc violations=$(echo "$out" | grep -c '^VIOLATION') $(echo "$out" | grep "^$id tier" | tail -1 | cut -c1-160)"
 done
